@@ -4,7 +4,7 @@ import copy
 
 import numpy as np
 
-from .. import monitors_basis
+from .. import gen, monitors_basis
 from ..drive import call
 from ..shard import Workload
 from ._common import arm_light
@@ -21,29 +21,45 @@ def setup(ctx):
 
 
 def make(rng, fam, index, dim, neutral=False):
-    d = None if rng.random() < 0.3 else dim
+    f, dom = make_(rng, fam, index, dim, neutral)
+    return f, dom
+
+
+def fl(rng, v):
+    """a real parameter as the caller may hold it: Python float or a NumPy scalar (scales / domains computed from data)"""
+    return gen.as_float(rng, v, p=0.3, allow32=False)
+
+
+def it(rng, v):
+    """an integer parameter (degree, exponent, coordinate index, dimension) as Python int or signed NumPy integer"""
+    return [int, int, int, np.int64, np.int32][int(rng.integers(0, 5))](v)
+
+
+def make_(rng, fam, index, dim, neutral=False):
+    d = None if rng.random() < 0.3 else it(rng, dim)
+    index = it(rng, index)
     if fam == 'ConstantFunction':
         return tr.ConstantFunction(index, d), (-2, 2)
     if fam == 'Identity':
         return tr.Identity(index, d), (-2, 2)
     if fam == 'Monomial':
-        return tr.Monomial(index, int(rng.integers(0, 6)), dimension=d) if neutral else tr.Monomial(index, int(rng.integers(0, 6)), float(rng.uniform(-3, 3)), d), (-2, 2)
+        return tr.Monomial(index, it(rng, rng.integers(0, 6)), dimension=d) if neutral else tr.Monomial(index, it(rng, rng.integers(0, 6)), fl(rng, rng.uniform(-3, 3)), d), (-2, 2)
     if fam == 'Legendre':
-        dom = 1.0 if neutral else float(rng.uniform(0.3, 4.0))
-        return tr.Legendre(index, int(rng.integers(0, 7)), dom, d), (-dom, dom)
+        dom = 1.0 if neutral else fl(rng, rng.uniform(0.3, 4.0))
+        return tr.Legendre(index, it(rng, rng.integers(0, 7)), dom, d), (-float(dom), float(dom))
     if fam == 'Sin':
-        return tr.Sin(index, 1.0 if neutral else float(rng.uniform(-4, 4)), d), (-3, 3)
+        return tr.Sin(index, 1.0 if neutral else fl(rng, rng.uniform(-4, 4)), d), (-3, 3)
     if fam == 'Cos':
-        return tr.Cos(index, 1.0 if neutral else float(rng.uniform(-4, 4)), d), (-3, 3)
+        return tr.Cos(index, 1.0 if neutral else fl(rng, rng.uniform(-4, 4)), d), (-3, 3)
     if fam == 'GaussFunction':
-        return tr.GaussFunction(index, 0.0 if neutral else float(rng.uniform(-2, 2)), 1.0 if neutral else float(rng.uniform(0.1, 3.0)), d), (-3, 3)
+        return tr.GaussFunction(index, 0.0 if neutral else fl(rng, rng.uniform(-2, 2)), 1.0 if neutral else fl(rng, rng.uniform(0.1, 3.0)), d), (-3, 3)
     if fam == 'PeriodicGaussFunction':
-        return tr.PeriodicGaussFunction(index, 0.0 if neutral else float(rng.uniform(-2, 2)), 1.0 if neutral else float(rng.uniform(0.1, 3.0)), d), (-4, 4)
+        return tr.PeriodicGaussFunction(index, 0.0 if neutral else fl(rng, rng.uniform(-2, 2)), 1.0 if neutral else fl(rng, rng.uniform(0.1, 3.0)), d), (-4, 4)
     if fam == 'Bspline':
         nk = int(rng.integers(2, 6))
         knots = np.sort(rng.uniform(-2, 2, size=nk + 1))
         knots = knots + np.arange(nk + 1) * 0.05
-        deg = int(rng.integers(2, 5))
+        deg = it(rng, rng.integers(2, 5))
         coeff = rng.standard_normal(nk + deg)
         return tr.Bspline(index, knots, deg, coeff, d), (knots[0] + 0.02, knots[-1] - 0.02)
     raise ValueError(fam)
